@@ -190,12 +190,13 @@ def build_harness(release=False):
         return rc == 0 and os.path.exists(binp), binp, (out + err)[-6000:]
 
 
-def build_server_bin():
-    """the real executable, built from the repository's working tree"""
+def build_server_bin(release=False):
+    """the real executable, built from the repository's working tree (release = the optimised build that is shipped:
+    no debug assertions, wrapping integer arithmetic)"""
     tgt = os.path.join(CACHE, "repo-target") if REPO == "/repo" else os.path.join(REPO, "target-bin")
     with Lock("serverbin-" + os.path.basename(tgt)):
         rc, out, err = run(["cargo", "build", "--offline", "--quiet", "--manifest-path", os.path.join(REPO, "Cargo.toml"),
-                            "--bin", "taskchampion-sync-server"], timeout=2400,
+                            "--bin", "taskchampion-sync-server"] + (["--release"] if release else []), timeout=2400,
                            env={"CARGO_TARGET_DIR": tgt, "RUSTFLAGS": "-Awarnings"})
-        binp = os.path.join(tgt, "debug", "taskchampion-sync-server")
+        binp = os.path.join(tgt, "release" if release else "debug", "taskchampion-sync-server")
         return rc == 0 and os.path.exists(binp), binp, (out + err)[-4000:]
